@@ -812,6 +812,10 @@ class AnsiString:
             reset_end - when True, the output string will end with the RESET directive (0) when at least 1 setting
                         was applied by this AnsiString
         '''
+        if isinstance(format_spec, AnsiStr):
+            # An AnsiStr stands for its text (its raw str value is its rendering)
+            format_spec = format_spec.base_str
+
         if not format_spec and not self._fmts and not reset_start:
             # No formatting
             return self._s
